@@ -27,37 +27,42 @@ def run(ctx):
                  reopens=0, straddle_logs=0, straddle_late=0, panics=0, driver_runs=[], commands=set())
     samples = []
     model = {}
+    good_files, selftest = [], {}
 
     def model_stage(_):
-        r = V.tlc(ctx, "MC_ZDet", "MC_ZDet.cfg", timeout=600 if quick else 1200, workers=8 if quick else None,
-                  tag="mc-design", coverage=not quick)
+        r = D.model_run(ctx, "MC_ZDet", "MC_ZDet_quick.cfg" if quick else "MC_ZDet.cfg", "mc-design",
+                        timeout=600 if quick else 1200, workers=8, coverage=not quick)
         model["design"] = r
         if not quick:
-            model["n4"] = V.tlc(ctx, "MC_ZDet", "MC_ZDet_n4.cfg", timeout=1500, tag="mc-n4")
-            model["noabort"] = V.tlc(ctx, "MC_ZDet", "MC_ZDet_noabort.cfg", timeout=900, tag="mc-noabort")
+            model["n4"] = D.model_run(ctx, "MC_ZDet", "MC_ZDet_n4.cfg", "mc-n4", timeout=1500, workers=8, heap="8g")
+            model["noabort"] = D.model_run(ctx, "MC_ZDet", "MC_ZDet_noabort.cfg", "mc-noabort", timeout=900, workers=8)
             for m in MUTANTS:
-                model["mut_" + m] = V.tlc(ctx, "MC_ZDet", "MC_ZDet_mut_%s.cfg" % m, timeout=600, workers=4, tag="mut-" + m)
+                model["mut_" + m] = D.model_run(ctx, "MC_ZDet", "MC_ZDet_mut_%s.cfg" % m, "mut-" + m, timeout=600, workers=4)
 
     # driver stages: (name, stage label for signatures, args, parts)
     eng_order = ["pebble,mem", "mem,pebble"][ctx.seed % 2]
     stages = []
     if quick:
         stages.append(("general", "general", ["-seed", seed, "-logs", "12", "-len", "70", "-engines", "pebble,mem"], 4))
-        stages.append(("straddle", "general", ["-seed", seed, "-logs", "0", "-straddle", "1", "-straddle-skip", "hclear",
+        stages.append(("straddle", "general", ["-seed", seed, "-logs", "0", "-straddle", "1",
                                                "-engines", eng_order], 2))
         stages.append(("isolate-hclear", "isolate-hclear", ["-seed", seed, "-logs", "0", "-straddle", "1",
                                                             "-straddle-only", "hclear", "-engines", eng_order], 1))
         stages.append(("isolate-abort", "isolate-abort", ["-seed", seed, "-logs", "2", "-len", "50", "-dense", "1",
                                                           "-varlen", "0", "-failing"], 2))
+        stages.append(("isolate-hll", "isolate-hll", ["-seed", seed, "-logs", "2", "-len", "120", "-dense", "0",
+                                                      "-varlen", "0", "-hllmix", "-engines", "pebble"], 2))
     else:
         stages.append(("general", "general", ["-seed", seed, "-logs", "45", "-len", "110", "-full", "-engines", "pebble,mem"], 8))
         stages.append(("general2", "general", ["-seed", str(ctx.seed + 1000), "-logs", "30", "-len", "40", "-full",
                                                "-dense", "2", "-engines", "mem,pebble"], 8))
-        stages.append(("straddle", "general", ["-seed", seed, "-logs", "0", "-straddle", "4", "-straddle-skip", "hclear"], 4))
+        stages.append(("straddle", "general", ["-seed", seed, "-logs", "0", "-straddle", "4"], 4))
         stages.append(("isolate-hclear", "isolate-hclear", ["-seed", seed, "-logs", "0", "-straddle", "4",
                                                             "-straddle-only", "hclear"], 1))
         stages.append(("isolate-abort", "isolate-abort", ["-seed", seed, "-logs", "6", "-len", "60", "-dense", "1",
                                                           "-varlen", "0", "-failing"], 2))
+        stages.append(("isolate-hll", "isolate-hll", ["-seed", seed, "-logs", "8", "-len", "120", "-dense", "0",
+                                                      "-varlen", "0", "-hllmix"], 2))
 
     def driver_stage(st):
         name, label, args, parts = st
@@ -82,6 +87,8 @@ def run(ctx):
             samples.extend([x for x in summ.get("samples", []) if "straddle" in x][:1])
         for f, events, fails in D.validate(ctx, "ZDetTrace", "ZDetTrace.cfg", files, name, "log"):
             stats["events"] += len(events)
+            if not fails and name == "general" and len(events) > 500:
+                good_files.append(f)
             for line, exp, seg in fails:
                 stats["mismatches"] += 1
                 sig = D.classify_det(seg, label)
@@ -94,6 +101,8 @@ def run(ctx):
                 V.write_ndjson(segf, seg)
                 V.report_failure(ctx, sig, what, files=[segf], script={"detsim": args, "stage": name})
 
+    if not quick and good_files:
+        selftest.update(D.selftest_binding(ctx, "ZDetTrace", "ZDetTrace.cfg", good_files[0], D.det_corruptions(), "det"))
     # (A) verdict on the model itself: never a verdict on the code
     r = model["design"]
     V.require_model_ok(ctx, r, "MC_ZDet")
@@ -118,6 +127,7 @@ def run(ctx):
         samples=samples or [{"note": "no sample"}],
         exhaustive=True,
         model_runs={k: v.summary() for k, v in model.items()},
+        binding_selftest=selftest,
         spec_mutants_refuted=[m for m in MUTANTS if ("mut_" + m) in model and model["mut_" + m].violated],
         logs=stats["logs"], runs=stats["runs"], apply_groups=stats["groups"], replies_compared=stats["replies"],
         dump_keys_compared=stats["dumpkeys"], events_validated=stats["events"],
@@ -143,6 +153,9 @@ def run(ctx):
         "HLL write cache is flushed); HLL keys are compared through PFCOUNT",
         "logical dumps are taken only for logs whose expiry instants are >= 1 h away from the wall clock; straddle "
         "runs are compared through replies and raw engine content",
-        "known findings are kept out of the general corpus: HCLEAR in straddle logs (C07-hclear-wallclock), batchable "
-        "commands failing in the apply handler (C07-batch-abort-on-apply-error); each has an isolate stage",
+        "the known finding C07-hll-write-cache is kept out of the general corpus (only PFADD on HLL keys) and has "
+        "its own isolate stage",
+        "the known finding C07-batch-abort-on-apply-error is kept out of the general corpus (no batchable command "
+        "that fails in its apply handler) and has its own isolate stage; the repaired HCLEAR finding keeps its "
+        "isolate stage as a regression test",
     ])
